@@ -49,14 +49,14 @@ class C08(Check):
                    'each mode is compared with branches run in the SAME mode, so early completion after take/first on plain observables is part of the reference',
                    'branch programs whose standalone run errors (mean(reduce) on an empty key ...) are discarded']
     ANCHORS = ['rxsci/operators/tee_map.py', 'rxsci/mux/muxconnectable.py']
-    REQUIRED_TAGS = ['plain', 'mux', 'group', 'roll', 'roll_eq', 'split', 'zip', 'merge', 'combine_latest', 'branches=2', 'branches=3', 'branches=4', 'nested-tee', 'over-256-keys', 'after-aborted-subscriptions', 'prelude:dispose', 'prelude:peek', 'a-branch-with-failing-records', 'rx-native-branch-with-inner-observables']
+    REQUIRED_TAGS = ['plain', 'mux', 'group', 'roll', 'roll_eq', 'split', 'zip', 'merge', 'combine_latest', 'branches=2', 'branches=3', 'branches=4', 'nested-tee', 'over-256-keys', 'after-aborted-subscriptions', 'prelude:dispose', 'prelude:peek', 'a-branch-with-failing-records', 'rx-native-branch-with-inner-observables', 'branches>=9']
     REQUIRED_OBSERVED = ['tuples_compared', 'branch_traces_recorded', 'lifetimes_checked', 'cold_source_runs_compared']
 
     def generate(self, rng, tier, shard, nshards):
         return with_prelude(self._generate(rng, tier, shard, nshards), rng, size=lambda c: len(c['items']))
 
     def _generate(self, rng, tier, shard, nshards):
-        n = 3800 if tier == 'quick' else 10 ** 7
+        n = 3200 if tier == 'quick' else 10 ** 7
         names = list(CTX)
         for k in range(n):
             if k % 400 == 10:
@@ -65,6 +65,9 @@ class C08(Check):
                 nb = rng.choice([2, 3])
                 branches = [[['filter', 'modne:%d:0' % rng.randint(2, 3)]], [['map', 'add:1']], [['filter', 'gt:%d' % rng.randint(100, 400)]]][:nb]
                 rng.shuffle(branches)
+                if (k // 400) % 2:
+                    # many branches (per-branch flags packed in a byte / a word)
+                    branches = branches + [[['map', 'add:%d' % j]] for j in range(rng.choice([6, 7, 14]))]
                 yield {'branches': branches, 'join': ['zip', 'combine_latest', 'merge'][(k // 400) % 3], 'ctx': 'group',
                        'ctx_node': ['group_by', rng.choice(['mod:300', 'mod:140', 'kt:300']), None],
                        'items': [rng.randint(0, 2000) for _ in range(rng.choice([900, 1500]))]}
@@ -73,7 +76,7 @@ class C08(Check):
             plain = ctx == 'plain'
             opts = gen.GenOpts(dual_only=plain, max_depth=1 if plain else 2, allow_empty_sensitive=True, allow_progress=False,
                                ctx_weight=2, tee_weight=2, no_streaming_mutation=True)
-            nb = rng.choice([2, 2, 3, 4])
+            nb = rng.choice([2, 2, 3, 4]) if k % 50 != 25 else rng.choice([9, 10, 17])
             branches = []
             for _ in range(nb):
                 st = gen.State(in_tee=True)
@@ -110,6 +113,8 @@ class C08(Check):
             real = branches
         tee = ['tee_map', join, real]
         out.tags += [ctx, join, 'branches=%d' % len(branches)]
+        if len(branches) >= 9:
+            out.tags.append('branches>=9')
         if any(n[0] == 'rxflat' for b in branches for _, n in progs.walk(b)):
             out.tags.append('rx-native-branch-with-inner-observables')
         if case.get('prelude') and progs.usable_prelude([tee], case['prelude']) and ctx != 'plain':
